@@ -33,10 +33,10 @@ theorem no_inEdge_of_input {c : Dag} {P : Paths} {L : List (NodeId × Op)} (g : 
 
 /-- on a circuit satisfying DagInv with plain operations every node has a `_max_depth` value, and the literal recursion
     reaches it within the model's fuel -/
-theorem all_hasDepth {c : Dag} {P : Paths} (g : Good c P) (hpl : AllPlain c) :
+theorem all_hasDepth_of {c : Dag} {P : Paths} (g : Good c P) (hk : NoInputKey c) :
     ∀ n ∈ c.nodeIds, ∃ d : Int, HasDepth c n d ∧ d + 2 ≤ (c.nodes.length : Int) + 1 := by
   obtain ⟨L, hS⟩ := sched_exists g
-  have hkey := hS.input_not_key g hpl
+  have hkey := hS.input_not_key_of hk
   obtain ⟨hd1, hd2⟩ := sched_depth g hS hkey
   intro n hn
   cases n with
@@ -67,6 +67,10 @@ theorem all_hasDepth {c : Dag} {P : Paths} (g : Good c P) (hpl : AllPlain c) :
     rw [List.length_map] at hb
     simp only at hb ⊢
     omega
+
+theorem all_hasDepth {c : Dag} {P : Paths} (g : Good c P) (hpl : AllPlain c) :
+    ∀ n ∈ c.nodeIds, ∃ d : Int, HasDepth c n d ∧ d + 2 ≤ (c.nodes.length : Int) + 1 :=
+  all_hasDepth_of g (noInputKey_of_allPlain g hpl)
 
 theorem hasDepth_lt_of_edge {c : Dag} (hsrc : ∀ x b, isInputNode c b → ¬ c.E x b) {u v : NodeId} (hE : c.E u v)
     {du dv : Int} (hu : HasDepth c u du) (hv : HasDepth c v dv) : du + 1 ≤ dv := by
@@ -331,10 +335,10 @@ end table
 
 /-- **the model's `longestPathLen` meets the recorded specification of `nx.dag_longest_path_length`** on every circuit
     satisfying DagInv with plain operations -/
-theorem longestPathLen_spec {c : Dag} {P : Paths} (g : Good c P) (hpl : AllPlain c) : LongestPathSpec c c.longestPathLen := by
+theorem longestPathLen_spec_of {c : Dag} {P : Paths} (g : Good c P) (hk : NoInputKey c) : LongestPathSpec c c.longestPathLen := by
   obtain ⟨L, hS⟩ := sched_exists g
-  have hsrc := no_inEdge_of_input g hS (hS.input_not_key g hpl)
-  have hall := all_hasDepth g hpl
+  have hsrc := no_inEdge_of_input g hS (hS.input_not_key_of hk)
+  have hall := all_hasDepth_of g hk
   have hnodes : ∀ a b, c.E a b → a ∈ c.nodeIds := fun a b h => (E_nodes g.inv h).1
   obtain ⟨hpairs, hdist, hsome⟩ := distTable_spec hsrc hall hnodes
   unfold longestPathLen
@@ -361,6 +365,14 @@ theorem longestPathLen_spec {c : Dag} {P : Paths} (g : Good c P) (hpl : AllPlain
       have h1 := w.le_depth hsrc _ (hdist b kb hkb)
       have h2 := m2 kb (List.mem_map.mpr ⟨(b, kb), mem_of_lookup hkb, rfl⟩)
       omega
+
+theorem longestPathLen_spec {c : Dag} {P : Paths} (g : Good c P) (hpl : AllPlain c) : LongestPathSpec c c.longestPathLen :=
+  longestPathLen_spec_of g (noInputKey_of_allPlain g hpl)
+
+/-- the same under `NoInputKey` only (arbitrary other user labels admitted) -/
+theorem circuitDepth_model_eq_spec_of {c : Dag} {P : Paths} {L : List (NodeId × Op)} (g : Good c P) (hk : NoInputKey c)
+    (hS : Sched c P L) (hne : c.nodeIds ≠ []) : Metrics.circuitDepth c = (Spec.depth (L.map (·.2)) : Int) :=
+  circuitDepth_eq_spec_sched_of g hk hS hne (longestPathLen_spec_of g hk)
 
 /-- **`CircuitDepth` with the model's own longest-path computation** — the value the driver reports and the harness compares
     with the implementation's on every input — is the largest ASAP layer of the operation list of any schedule: no networkx
